@@ -69,12 +69,16 @@ Definition vm_step (hash : bytes -> Z -> bytes) (t : vtable) (op : vm_op) (o : v
       let '(t', oc) := vm_accept t name in (t', obs_eq_accept oc o)
   end.
 
+Definition vm_op_code (op : vm_op) : Z :=
+  match op with VmListen _ _ _ => 11 | VmNewConn _ _ _ _ _ _ _ => 12 | VmCloseListener _ => 13
+              | VmListenerClose _ => 14 | VmAccept _ => 15 end.
+
 Fixpoint vm_replay (hash : bytes -> Z -> bytes) (t : vtable) (i : Z) (ops : list vm_op) (obs : list vobs) : Z :=
   match ops, obs with
   | [], [] => 0
   | op :: ops', o :: obs' =>
       let '(t', ok) := vm_step hash t op o in
-      if ok then vm_replay hash t' (i + 1) ops' obs' else 1000 + i
+      if ok then vm_replay hash t' (i + 1) ops' obs' else vm_op_code op
   | _, _ => 2
   end.
 
@@ -120,12 +124,15 @@ Definition nh_step (hash : bytes -> Z -> bytes) (s : vnh_state) (op : nh_op) (o 
       end
   end.
 
+Definition nh_op_code (op : nh_op) : Z :=
+  match op with NhListen _ _ _ => 21 | NhClose _ => 22 | NhVisitor _ _ _ pre _ => if pre then 23 else 24 end.
+
 Fixpoint nh_replay (hash : bytes -> Z -> bytes) (s : vnh_state) (i : Z) (ops : list nh_op) (obs : list vobs) : Z :=
   match ops, obs with
   | [], [] => 0
   | op :: ops', o :: obs' =>
       let '(s', ok) := nh_step hash s op o in
-      if ok then nh_replay hash s' (i + 1) ops' obs' else 1000 + i
+      if ok then nh_replay hash s' (i + 1) ops' obs' else nh_op_code op
   | _, _ => 2
   end.
 
@@ -158,12 +165,19 @@ Definition sys_obs_ok (op : sop) (o : sout) (ob : vobs) : bool :=
   | _, _, _ => false
   end.
 
+Definition sys_op_code (op : sop) : Z :=
+  match op with
+  | SLogin _ _ => 31 | SLogout _ => 32 | SRegister _ _ _ _ _ => 33 | SClose _ _ => 34
+  | SVisitorConn _ _ _ _ _ _ _ _ => 35 | SNatHole _ _ _ _ pre _ => if pre then 36 else 37
+  | SSessionEnd _ => 38 | SAccept _ => 39
+  end.
+
 Fixpoint sys_replay (hash : bytes -> Z -> bytes) (s : sys) (i : Z) (ops : list sop) (obs : list vobs) : Z :=
   match ops, obs with
   | [], [] => 0
   | op :: ops', o :: obs' =>
       let '(s', r) := sys_step hash s op in
-      if sys_obs_ok op r o then sys_replay hash s' (i + 1) ops' obs' else 1000 + i
+      if sys_obs_ok op r o then sys_replay hash s' (i + 1) ops' obs' else sys_op_code op
   | _, _ => 2
   end.
 
@@ -303,11 +317,14 @@ Definition C08_holds (c : case) : bool :=
   | CVm tbl ops obs => mon_vm (ohash tbl) [] [] ops obs
   | CNh tbl ops obs => mon_nh (ohash tbl) [] ops obs
   | CSys tbl ops obs => mon_sys (ohash tbl) {| ms_users := []; ms_live := [] |} [] ops obs
-  | CE2E _ _ _ _ _ _ fw bw n => fw && bw && (n =? 1)
+  | CE2E _ _ _ _ kind _ fw bw n =>
+      (* kind 0: right key and allowed user: transparent, backend contacted once;
+         kind 1 (wrong key) / 2 (user outside the default allowUsers): nothing comes back, backend never contacted *)
+      if kind =? 0 then fw && bw && (n =? 1) else negb fw && negb bw && (n =? 0)
   end.
 
 (* 0 = model and implementation agree and the monitor holds; 1 oracle table incomplete; 2 lengths differ;
-   3 monitor fails although the replay agrees; 1000+i first disagreeing operation *)
+   3 monitor fails although the replay agrees; 4 end-to-end observation fails; 11-15 / 21-24 / 31-39: kind of the first operation on which model and implementation disagree *)
 Definition check_case (c : case) : Z :=
   match c with
   | CVm tbl ops obs =>
